@@ -56,7 +56,7 @@ def _ob_record(ob):
 def run_contract_task(task):
     """worker: verify one function under contract in prove mode, then (if needed) in refute mode"""
     from .repo import Repo
-    from .solve import discharge, parallel_discharge
+    from .solve import discharge, discharge_canaries, parallel_discharge
     from .spec import verify_function
     from .state import OutsideSubset
 
@@ -72,9 +72,11 @@ def run_contract_task(task):
             eng = _mk_engine(repo, contracts, ftypes, mods, "prove", 0)
             summ = verify_function(eng, c)
             out["summary"] = summ
-            parallel_discharge(eng.obligs, opts.get("timeout_ms", 20000), opts.get("fork", 4))
+            parallel_discharge([ob for ob in eng.obligs if ob.meta.get("kind") != "canary"], opts.get("timeout_ms", 20000), opts.get("fork", 4))
+            discharge_canaries([ob for ob in eng.obligs if ob.meta.get("kind") == "canary"])
             for ob in eng.obligs:
-                out["prove"].append(_ob_record(ob))
+                if ob.status != "skipped":
+                    out["prove"].append(_ob_record(ob))
             out["models_used"] = sorted(eng.used_models)
             out["dropped"] = sorted(eng.dropped)
         except OutsideSubset as e:
